@@ -58,7 +58,7 @@ def class_body(text, name):
 
 
 def generate(repo):
-    err = None; bases = []; scalars = []; handler = (False, False, False, False)
+    err = None; bases = []; scalars = []; handler = (False, False, False, False); raw_writes = ["translation failed"]; folder_fresh = False
     try:
         inc = os.path.join(repo, "include")
         headers = {p: strip_comments(open(p).read()) for p in glob.glob(inc + "/**/*.hpp", recursive=True)}
@@ -85,6 +85,21 @@ def generate(repo):
             scalars.append((name, m.group(3) is not None, read_by_contact))
         if not bases or not scalars:
             raise ValueError("nothing found")
+        # ---- every write of a face-type index in the cell types is the constant 0 or goes through the clamp of set_face_type
+        raw_writes = []
+        for hp in sorted(glob.glob(os.path.join(inc, "mesh", "cell_types", "*.hpp"))):
+            txt = preprocess(headers[hp], mac)
+            for mw in re.finditer(r"set_face_type_id\s*\(([^;]*)\)\s*;", txt):
+                a_ = re.sub(r"\s+", "", mw.group(1))
+                if a_ in ("0", "std::min<size_t>(face_type_id,cell_type_->face_types_.size()-1)"):
+                    continue
+                if re.match(r"(const)?unsigned(short)?face_type_id", a_):      # the declaration of the setter itself
+                    continue
+                raw_writes.append("%s: %s" % (os.path.basename(hp), a_[:60]))
+        # ---- the solver empties the output folder before it creates and uses it
+        sc = re.sub(r"\s+", "", strip_comments(open(os.path.join(repo, "src", "solver.cpp")).read()))
+        i_rm = sc.find("std::filesystem::remove_all(sim_parameters_.output_folder_path_);"); i_mk = sc.find("std::filesystem::create_directories(sim_parameters_.output_folder_path_)")
+        folder_fresh = 0 <= i_rm < i_mk
         # ---- the shape of parallel_exception_handler (include/utils.hpp): four facts the handler model of Schedule.v assumes
         ut = headers[os.path.join(inc, "utils.hpp")]
         mh = re.search(r"inline\s+void\s+parallel_exception_handler\s*\(", ut)
@@ -119,6 +134,10 @@ def generate(repo):
     lines.append("(* scalar member of node (active configuration), has a default member initialiser, is read by the contact phase *)")
     lines.append("Definition node_scalars : list (string * bool * bool) := [" + "; ".join('("%s", %s, %s)' % (n, b(i), b(r)) for n, i, r in scalars) + "].")
     lines.append("(* parallel_exception_handler: (one shared exception slot declared before the region, every task inside try with a catch-all that stores under a critical section, the loop visits every element and nothing leaves it early, rethrown after the loop iff a slot was stored) *)")
+    lines.append("(* writes of a face-type index in include/mesh/cell_types that are neither the constant 0 nor clamped to the declared face types *)")
+    lines.append("Definition raw_face_type_writes : list string := [" + "; ".join('"%s"' % x.replace('"', "'") for x in raw_writes) + "].")
+    lines.append("(* solver::solver removes the output folder before creating it *)")
+    lines.append("Definition output_folder_is_wiped_before_use : bool := %s." % b(folder_fresh))
     lines.append("Definition handler_shape : bool * bool * bool * bool := (%s, %s, %s, %s)." % tuple(b(x) for x in handler))
     return "\n".join(lines) + "\n", err, bases, scalars
 
